@@ -38,7 +38,7 @@ def check_junction_domain(res, preflush=None):
             if isinstance(c, Junc) and not isinstance(c, ResJ) and preflush.get((pop.name, c.name), 0) > 0:
                 # proportions in force for the initial flush are not recorded separately; the stored index-0 values are the
                 # post-flush ones.  If those sum to <= 0 the flush was (or would be) ill-posed as well.
-                s0 = sum(float(np.asarray(l.parameter.vals)[0]) for l in c.outlinks)
+                s0 = sum(max(float(np.asarray(l.parameter.vals)[0]), 0.0) for l in c.outlinks)
                 if not (s0 > 0):
                     raise Discard("plain junction initialised with people while its proportions sum to <= 0")
 
@@ -49,7 +49,7 @@ def check_finite_inputs(res):
     Src, Snk, Junc, ResJ, Timed, TLink = kinds()
     for pop, c in all_comps(res):
         if isinstance(c, Junc) and not isinstance(c, ResJ):
-            s = sum(np.asarray(l.parameter.vals, dtype=float) for l in c.outlinks)
+            s = sum(np.maximum(np.asarray(l.parameter.vals, dtype=float), 0.0) for l in c.outlinks)
             inflow = sum((np.asarray(l.vals, dtype=float) for l in c.inlinks), np.zeros_like(res.t))
             with np.errstate(invalid="ignore"):
                 bad = np.isfinite(inflow) & (inflow != 0) & ~(s > 0)
